@@ -161,6 +161,9 @@ func (s *storage) ReceiveBlob(ctx context.Context, plainBR blob.Ref, source io.R
 	defer pools.PutBuffer(plainBytes)
 
 	hash := plainBR.Hash()
+	if hash == nil {
+		return sb, fmt.Errorf("encrypt: unsupported blobref hash for %v", plainBR)
+	}
 	plainSize, err := io.Copy(io.MultiWriter(plainBytes, hash), source)
 	if err != nil {
 		return sb, err
